@@ -44,8 +44,65 @@ def _(c):
 
 
 
+
+
+UTXO_T = MAP(CLS('OutputReference'), CLS('Output'))
+CREATED = "(r.hash == tid and 0 <= r.index < %s)"
+UNSPENT = "not G.spent_in(r, ins, %s)"
+KEPT = "(r in U and (is_coinbase or " + UNSPENT + "))"
+AGREE = "all(same(W[x.output_reference], U[x.output_reference]) for x in ins%s)"
+
+
+@ST.contract("skepticoin.balances.uto_apply_transaction", props=["C02", "C03"])
+def _(c):
+    c.params(unspent_transaction_outs=UTXO_T)
+    c.summary("uto_tx")
+    c.predicate("uto_tx_ok", ["unspent_transaction_outs", "transaction", "is_coinbase"])
+    c.let(U="unspent_transaction_outs", ins="transaction.inputs", outs="transaction.outputs", tid="transaction.hash()",
+          # values are never negative (in validated chains they are positive): the hypothesis of the total bound
+          nn="every(OutputReference, lambda r: implies(r in unspent_transaction_outs, unspent_transaction_outs[r].value >= 0))"
+             " and all(o.value >= 0 for o in transaction.outputs)")
+    M = "mutable_unspent_transaction_outs"
+    c.loop(0).invariant(
+        "every(OutputReference, lambda r: (r in %s) == (r in U and %s))" % (M, UNSPENT % "i"),
+        "every(OutputReference, lambda r: implies(r in %s, same(%s[r], U[r])))" % (M, M),
+        # for ANY map W that agrees with U on the references spent so far (the caller's block-initial set)
+        "every(UTXO_MAP, lambda W: implies(%s,"
+        " G.total(%s) == G.total(U) - sum(W[x.output_reference].value for x in ins[:i])))" % (AGREE % "[:i]", M),
+        "all(x.output_reference in U for x in ins[:i])")
+    c.loop(1).invariant(
+        "every(OutputReference, lambda r: (r in %s) == (%s or %s))" % (M, CREATED % "i", KEPT % "len(ins)"),
+        "every(OutputReference, lambda r: implies(r in %s, same(%s[r], outs[r.index] if %s else U[r])))" % (M, M, CREATED % "i"),
+        "implies(nn, every(OutputReference, lambda r: implies(r in %s, %s[r].value >= 0)))" % (M, M),
+        "implies(nn, every(UTXO_MAP, lambda W: implies(is_coinbase or %s,"
+        " G.total(%s) <= G.total(U) - (0 if is_coinbase else sum(W[x.output_reference].value for x in ins))"
+        " + sum(o.value for o in outs[:i]))))" % (AGREE % "", M),
+        "implies(not is_coinbase, all(x.output_reference in U for x in ins))")
+    # the new set: created outputs, plus the old ones that were not spent; nothing else
+    c.ensures(
+        "every(OutputReference, lambda r: (r in result) == (%s or %s))" % (CREATED % "len(outs)", KEPT % "len(ins)"),
+        "every(OutputReference, lambda r: implies(r in result, same(result[r], outs[r.index] if %s else U[r])))" % (CREATED % "len(outs)"),
+        "implies(nn, every(OutputReference, lambda r: implies(r in result, result[r].value >= 0)))",
+        # value: what leaves is the inputs' value, what enters is at most the outputs' value
+        "implies(nn, every(UTXO_MAP, lambda W: implies(is_coinbase or %s,"
+        " G.total(result) <= G.total(U) - (0 if is_coinbase else sum(W[x.output_reference].value for x in ins))"
+        " + sum(o.value for o in outs))))" % (AGREE % ""),
+        # normal return means every input was present when its turn came, i.e. present in U and not repeated
+        "implies(not is_coinbase, all(x.output_reference in U for x in ins))")
+
+
 @ST.contract("skepticoin.balances.uto_apply_block", props=["C02", "C03"])
 def _(c):
+    # code against a spec function: the block's unspent set is the left fold of uto_apply_transaction over the block's
+    # transactions (reward first); G.uto_prefix is that fold as a ghost function (prefix recursion)
+    c.params(unspent_transaction_outs=UTXO_T)
     c.summary("uto_block")
-    c.returns(MAP(CLS('OutputReference'), CLS('Output')))
-    c.trust("placeholder: the applied set is a function of (set, block); its definition is verified next")
+    c.predicate("uto_block_ok", ["unspent_transaction_outs", "block"])
+    c.let(U0="unspent_transaction_outs", txs="block.transactions")
+    c.loop(0).invariant(
+        "same(unspent_transaction_outs, G.uto_prefix(U0, txs, i))",
+        "all(G.uto_tx_ok(G.uto_prefix(U0, txs, j), txs[1 + j], False) for j in range(i))")
+    c.ensures("len(txs) >= 1",
+              "G.uto_tx_ok(U0, txs[0], True)",
+              "all(G.uto_tx_ok(G.uto_prefix(U0, txs, j), txs[1 + j], False) for j in range(len(txs) - 1))",
+              "same(result, G.uto_prefix(U0, txs, len(txs) - 1))")
